@@ -95,6 +95,8 @@ type Rule interface {
 	OnInstr(x *Explorer, fr *Frame, in ssa.Instruction, st uint64) uint64
 	// OnLoopEnter is called when a loop header is entered from outside the loop.
 	OnLoopEnter(x *Explorer, fr *Frame, l *Loop, st uint64) uint64
+	// OnBlock is called at every block entry (after OnLoopEnter); pred is nil for the entry block.
+	OnBlock(x *Explorer, fr *Frame, b, pred *ssa.BasicBlock, st uint64) uint64
 }
 
 type CallMode int
@@ -117,6 +119,7 @@ func (BaseRule) Compare(*Explorer, *Frame, token.Token, ssa.Value, ssa.Value) AV
 }
 func (BaseRule) OnInstr(_ *Explorer, _ *Frame, _ ssa.Instruction, st uint64) uint64 { return st }
 func (BaseRule) OnLoopEnter(_ *Explorer, _ *Frame, _ *Loop, st uint64) uint64        { return st }
+func (BaseRule) OnBlock(_ *Explorer, _ *Frame, _, _ *ssa.BasicBlock, st uint64) uint64 { return st }
 
 type ExitKind int
 
@@ -321,6 +324,7 @@ func (a *act) block(b, pred *ssa.BasicBlock, e env, st uint64) {
 			}
 		}
 	}
+	st = x.Rule.OnBlock(x, a.fr, b, pred, st)
 	pk := -1
 	if pred != nil {
 		pk = pred.Index
